@@ -52,7 +52,7 @@ pub fn generate(seed: u64, dir: &Path) -> Result<(), String> {
         format!("東京(とう){}漢（か）", key(&mut rng)),
         format!("一二三十{}1,000.5", key(&mut rng)),
         format!("{}ウカカウ{}", key(&mut rng), key(&mut rng)),
-        format!("abc-12{}漢漢", key(&mut rng)),
+        format!("abc-12{}漢漢ax-3b", key(&mut rng)),
         format!("{}{}{}", key(&mut rng), key(&mut rng), key(&mut rng)),
     ];
     let modes = ["A", "B", "C"];
@@ -66,6 +66,10 @@ pub fn generate(seed: u64, dir: &Path) -> Result<(), String> {
             // thread-specific dictionary words, so that two threads are inside the same plugin with different data
             rng.shuffle(&mut order);
             let mut text = String::new();
+            if k == 1 {
+                // a numeral with separators as the very first token (state of the numeric joiner at the start of a path)
+                text.push_str("1,000.5");
+            }
             for (j, idx) in order.iter().enumerate() {
                 if j >= 4 + k {
                     break;
